@@ -11,8 +11,8 @@ def cfg(scn, lens, kinds, nbg, invs=("WellFormed", "ReadBackLen", "Composition")
     return t
 
 def cmd(vec, place, off):
-    return "CB %s %s %s %d %d %d %s %d %s %s" % (vec["kind"], vec["op"], hexs(vec["id"]), vec["fd"], vec["len"], vec["base"], place, off,
-                                               hexs(vec["pre"]), hexs(vec["payload"]))
+    return "CB %s %s %s %d %d %d %s %d %s %s%s" % (vec["kind"], vec["op"], hexs(vec["id"]), vec["fd"], vec["len"], vec["base"], place, off,
+                                                 hexs(vec["pre"]), hexs(vec["payload"]), (" %d" % vec["srcoff"]) if vec.get("srcoff", 9999) < 9999 else "")
 
 def compare(vec, line, v, what):
     t = line.split()
